@@ -46,8 +46,8 @@ def prop(pid, driver, design, gens=('GenArith.v', 'GenLoops.v'), eio=False):
 prop('C01', 'c01', '4 (C01)', gens=('GenArith.v', 'GenLoops.v', 'GenSerMethods.v', 'GenDeMethods.v'))
 prop('C02', 'c02', '4 (C02)', gens=('GenArith.v', 'GenLoops.v', 'GenSerMethods.v'))
 prop('C03', 'c03', '4 (C03)', gens=('GenArith.v', 'GenLoops.v', 'GenDeMethods.v'))
-prop('C04', 'c04', '4 (C04)')
-prop('C05', 'c05', '4 (C05)')
+prop('C04', 'c04', '4 (C04)', gens=('GenArith.v', 'GenLoops.v', 'GenPtrCode.v'))
+prop('C05', 'c05', '4 (C05)', gens=('GenArith.v', 'GenLoops.v', 'GenPtrCode.v', 'GenSerMethods.v'))
 prop('C06', 'c06', '5 (C06)')
 prop('C07', 'c07', '5 (C07)')
 prop('C08', 'c08', '5 (C08)', gens=('GenArith.v', 'GenLoops.v', 'GenAccumulator.v'))
